@@ -140,6 +140,21 @@ void h_null(void) {
  * this realloc stub turns that into an obligation and keeps CBMC from forking a new heap object per insert */
 void * realloc(void * p, size_t n) { __CPROVER_assert(0, "replace unit: buffer growth is never needed (harness bound)"); __CPROVER_assume(0); return p; }
 #endif
+#if defined(GROW_MOVES) && !defined(VERIF_NATIVE)
+/* bounded replace unit, growth variant: the buffer is exactly as large as the old text, so every
+ * lengthening insert must grow it, and this realloc ALWAYS MOVES the block (allowed by the C standard),
+ * which is the case a pointer kept across d_string_insert does not survive */
+void * realloc(void * p, size_t n) {
+	char * q = malloc(n);
+	__CPROVER_assume(q != 0);
+	if (p) {
+		size_t old = __CPROVER_OBJECT_SIZE(p);
+		for (size_t i = 0; i < n && i < old; i++) { q[i] = ((char *)p)[i]; }
+		free(p);
+	}
+	return q;
+}
+#endif
 #define PRE_replace (DS_WF(d) && original[0] != 0)
 #define POST_replace (DS_WF(d))
 CONTRACT(long, d_string_replace_text_in_range, (DString * d, size_t pos, size_t len, const char * original, const char * replace), PRE_replace, POST_replace, DS_FRAME(d))
@@ -153,7 +168,11 @@ void h_replace(void) {
 	char original[PATB + 1], replace[PATB + 1];
 	for (size_t i = 0; i < PATB; i++) { if (i < lo) { ASSUME(orig[i] != 0); } original[i] = i < lo ? orig[i] : 0; if (i < lr) { ASSUME(repl[i] != 0); } replace[i] = i < lr ? repl[i] : 0; }
 	original[PATB] = 0; replace[PATB] = 0;
+#ifdef GROW_MOVES
+	DString * d = ALLOC(sizeof(DString)); d->str = ALLOC(HAYB + 1); d->currentStringBufferSize = L + 1; d->currentStringLength = L;
+#else
 	DString * d = ALLOC(sizeof(DString)); d->str = ALLOC(OUTB + 1); d->currentStringBufferSize = OUTB + 1; d->currentStringLength = L;
+#endif
 	for (size_t i = 0; i < HAYB; i++) { if (i < L) { ASSUME(hay[i] != 0); d->str[i] = hay[i]; } }
 	d->str[L] = 0;
 	/* reference result */
